@@ -14,7 +14,8 @@ def main():
         if c.assumed or pat not in q:
             continue
         try:
-            extract.find_function(c.source or q)
+            if not q.startswith("frame:"):
+                extract.find_function(c.source or q)
             qs.append(q)
         except extract.ExtractError:
             pass
